@@ -158,7 +158,8 @@ type cval struct {
 // concretise builds a Go expression for value v of type t from the model. ok=false if
 // more model values are needed (scheduled) or the value cannot be represented.
 func (rc *replayCtx) concretise(t types.Type, v Value, depth int) (string, bool) {
-	if depth > 6 {
+	if depth > 20 {
+		rc.log = append(rc.log, "value nested too deeply to rebuild")
 		return "", false
 	}
 	switch kindOf(t) {
@@ -434,7 +435,7 @@ func replayObligation(e *Engine, d *Discharged) (bool, interface{}) {
 	walk(o.Goal)
 	var argExprs []string
 	okAll := false
-	for round := 0; round < 6; round++ {
+	for round := 0; round < 24; round++ {
 		argExprs = argExprs[:0]
 		okAll = true
 		for _, in := range o.ex.inputs {
@@ -455,6 +456,7 @@ func replayObligation(e *Engine, d *Discharged) (bool, interface{}) {
 		}
 	}
 	if !okAll {
+		rc.log = append(rc.log, fmt.Sprintf("%d values still pending after the last value query", len(rc.pending)))
 		info["status"] = "could not build concrete inputs from the model"
 		info["notes"] = rc.log
 		return false, info
@@ -662,11 +664,80 @@ func (rc *replayCtx) verdict(oc *replayOutcome) (bool, string) {
 		return false, "no change of caller memory observed"
 	case "post":
 		if oc.Panicked {
-			return true, "the real code panics on this input: " + oc.Panic
+			// a panic is the business of the safety obligations (where panic-freedom is claimed at all:
+			// callees with allowpanic contracts are excluded); it says nothing about this clause
+			return false, "the real code panics on the model input (" + oc.Panic + "): the clause cannot be evaluated, not counted as a counterexample"
+		}
+		if ok, why := rc.requiresHold(); !ok {
+			return false, "the model input violates a precondition (" + why + "): not a counterexample"
 		}
 		return rc.evalClause(oc)
 	}
 	return false, "obligation kind " + o.Kind + " is not replayable"
+}
+
+// requiresHold: the preconditions of the function evaluated on the concrete entry state
+func (rc *replayCtx) requiresHold() (ok bool, why string) {
+	defer func() {
+		if r := recover(); r != nil {
+			ok, why = true, "" // not evaluable: do not reject on that ground
+		}
+	}()
+	ct := rc.e.contractFor(rc.fn)
+	if ct == nil || len(ct.Requires) == 0 {
+		return true, ""
+	}
+	pre, args := rc.concreteEntry()
+	env := &SpecEnv{ex: rc.o.ex, vars: paramBindings(rc.fn.Signature, args, nil), st: pre, pkg: rc.pkg, mode: "prove"}
+	rc.o.ex.evalLets(ct, env)
+	for _, r := range ct.Requires {
+		g, err := env.EvalBool(r.Expr)
+		if err != nil {
+			continue
+		}
+		g = foldConcrete(g)
+		if g.IsFalse() {
+			return false, r.Label + ": " + r.Text
+		}
+	}
+	return true, ""
+}
+
+// concreteEntry: entry memory and arguments under the model
+func (rc *replayCtx) concreteEntry() (*State, []Value) {
+	pre := newState()
+	sub := map[*Term]*Term{}
+	for id, v := range rc.vals {
+		t := rc.termByID[id]
+		if t == nil {
+			continue
+		}
+		n, ok := parseSMTInt(v)
+		if !ok {
+			continue
+		}
+		switch {
+		case t.Sort == SBool:
+			sub[t] = BoolConst(n.Sign() != 0)
+		case t.Sort.IsBV():
+			sub[t] = BVConst(n, t.Sort.Width())
+		case t.Sort == SInt:
+			sub[t] = IntConst(n.Int64())
+		}
+	}
+	var args []Value
+	for _, in := range rc.o.ex.inputs {
+		args = append(args, substValue(in.V, sub))
+	}
+	for id := range rc.vals {
+		t := rc.termByID[id]
+		if t != nil && t.Op == "select" && t.Args[0].Op == "var" {
+			if sub[t] != nil {
+				pre.storeScalar(t.Sort, Subst(t.Args[1], sub), sub[t])
+			}
+		}
+	}
+	return pre, args
 }
 
 // evalClause rebuilds concrete entry/final states from the dumps and evaluates the clause.
@@ -760,6 +831,7 @@ func (rc *replayCtx) evalClause(oc *replayOutcome) (confirmed bool, why string) 
 	if err != nil {
 		return false, "clause evaluation: " + err.Error()
 	}
+	g = foldConcrete(g)
 	if g.IsTrue() {
 		return false, "the clause holds on the real execution of the model input (model did not replay: abstraction artefact)"
 	}
